@@ -1,9 +1,11 @@
 // gen_metrics: translator for C20(a). Lists every Emit{Counter,Gauge,Histogram} call site of the
 // program (cmd/... and what it depends on inside the module), resolves kind, metric name, label
 // names and label-value classes per call chain, and writes
-//   $VERIF_DIR/coq/Gen/MetricsTable.v    (the table: always compiles)
-//   $VERIF_DIR/coq/Gen/MetricsTableOk.v  (Theorem table_ok : check_program ... = true, by vm_compute)
-//   $VERIF_DIR/build/gen/metrics_table.json (the same rows with source positions, for the driver)
+//
+//	$VERIF_DIR/coq/Gen/MetricsTable.v    (the table: always compiles)
+//	$VERIF_DIR/coq/Gen/MetricsTableOk.v  (Theorem table_ok : check_program ... = true, by vm_compute)
+//	$VERIF_DIR/build/gen/metrics_table.json (the same rows with source positions, for the driver)
+//
 // Anything it cannot resolve is emitted as unknown (None / VUnknown), which fails the check.
 package main
 
@@ -12,6 +14,7 @@ import (
 	"fmt"
 	"go/ast"
 	"go/constant"
+	"go/printer"
 	"go/token"
 	"go/types"
 	"os"
@@ -45,7 +48,7 @@ type sval struct {
 	why   string
 }
 
-func constS(s string) sval  { return sval{known: true, s: s, class: cConst} }
+func constS(s string) sval          { return sval{known: true, s: s, class: cConst} }
 func classS(c int, why string) sval { return sval{class: c, why: why} }
 
 func (v sval) consts() []string {
@@ -1149,6 +1152,181 @@ func (c ectx) evalSign(e ast.Expr, depth int) bool { // true = NonNeg
 	return false
 }
 
+// ---------- the wrapper's own label path ----------
+
+// wrapperPath checks structurally that the Prometheus wrapper hands label names and values on unchanged:
+//
+//	Emit<Kind>: pw.mustGet<Kind>Vec(name, labels).With(pw.labelsToMap(labels)) with the parameters as given;
+//	labelsToMap: only `m[x.Name] = x.Value` for x ranging over the global labels / the parameter;
+//	extractLabelNames: only `ret[i] = <global name>` / `ret[i+offset] = x.Name`.
+//
+// Anything else (a call, a slice expression, a conversion around a value) means the table's value classes
+// are not what reaches client_golang.
+func wrapperPath() (bool, []string) {
+	var notes []string
+	ok := true
+	bad := func(pos token.Pos, format string, a ...interface{}) {
+		ok = false
+		notes = append(notes, prog.Rel(pos)+": "+fmt.Sprintf(format, a...))
+	}
+	var wpkg *srcload.Pkg
+	for _, pkg := range prog.Pkgs {
+		if strings.HasSuffix(pkg.Path, "/pkg/metrics/prometheus") {
+			wpkg = pkg
+		}
+	}
+	if wpkg == nil {
+		return false, []string{"package pkg/metrics/prometheus not found"}
+	}
+	info := wpkg.Info
+	found := map[string]bool{}
+	// x.F where x is bound by `for _, x := range <labels>`
+	rangeVarField := func(fd *ast.FuncDecl, e ast.Expr, field string) bool {
+		se, isSel := ast.Unparen(e).(*ast.SelectorExpr)
+		if !isSel || se.Sel.Name != field {
+			return false
+		}
+		id, isID := se.X.(*ast.Ident)
+		if !isID {
+			return false
+		}
+		obj := info.Uses[id]
+		res := false
+		ast.Inspect(fd.Body, func(n ast.Node) bool {
+			if rs, isR := n.(*ast.RangeStmt); isR {
+				if v, isV := rs.Value.(*ast.Ident); isV && info.Defs[v] == obj {
+					if tv, has := info.Types[rs.X]; has {
+						if sl, isSl := tv.Type.Underlying().(*types.Slice); isSl && isTagType(sl.Elem()) {
+							res = true
+						}
+					}
+				}
+			}
+			return true
+		})
+		return res
+	}
+	for _, file := range wpkg.Files {
+		for _, d := range file.Decls {
+			fd, isF := d.(*ast.FuncDecl)
+			if !isF || fd.Recv == nil || fd.Body == nil {
+				continue
+			}
+			switch fd.Name.Name {
+			case "EmitCounter", "EmitGauge", "EmitHistogram":
+				found[fd.Name.Name] = true
+				params := fd.Type.Params.List
+				nameP, labelsP := params[0].Names[0].Name, params[len(params)-1].Names[0].Name
+				seen := false
+				ast.Inspect(fd.Body, func(n ast.Node) bool {
+					switch x := n.(type) {
+					case *ast.AssignStmt:
+						for _, l := range x.Lhs {
+							if id, isID := l.(*ast.Ident); isID && (id.Name == nameP || id.Name == labelsP) && x.Tok == token.ASSIGN {
+								bad(x.Pos(), "%s reassigns its parameter %s", fd.Name.Name, id.Name)
+							}
+						}
+					case *ast.CallExpr:
+						if se, isSel := x.Fun.(*ast.SelectorExpr); isSel && se.Sel.Name == "With" && len(x.Args) == 1 {
+							seen = true
+							inner, isCall := x.Args[0].(*ast.CallExpr)
+							good := false
+							if isCall && len(inner.Args) == 1 {
+								if ise, isS := inner.Fun.(*ast.SelectorExpr); isS && ise.Sel.Name == "labelsToMap" {
+									if id, isID := inner.Args[0].(*ast.Ident); isID && id.Name == labelsP {
+										good = true
+									}
+								}
+							}
+							if !good {
+								bad(x.Pos(), "%s does not call With(pw.labelsToMap(%s))", fd.Name.Name, labelsP)
+							}
+							// the vector: pw.mustGet*Vec(name, labels)
+							if vc, isVC := se.X.(*ast.CallExpr); isVC && len(vc.Args) == 2 {
+								a0, ok0 := vc.Args[0].(*ast.Ident)
+								a1, ok1 := vc.Args[1].(*ast.Ident)
+								if !ok0 || !ok1 || a0.Name != nameP || a1.Name != labelsP {
+									bad(vc.Pos(), "%s does not pass (name, labels) on unchanged", fd.Name.Name)
+								}
+							} else {
+								bad(x.Pos(), "%s: unexpected receiver of With", fd.Name.Name)
+							}
+						}
+					}
+					return true
+				})
+				if !seen {
+					bad(fd.Pos(), "%s has no With call", fd.Name.Name)
+				}
+			case "labelsToMap":
+				found["labelsToMap"] = true
+				ast.Inspect(fd.Body, func(n ast.Node) bool {
+					as, isA := n.(*ast.AssignStmt)
+					if !isA {
+						return true
+					}
+					for i, l := range as.Lhs {
+						ix, isIx := l.(*ast.IndexExpr)
+						if !isIx {
+							continue
+						}
+						if i >= len(as.Rhs) || as.Tok != token.ASSIGN {
+							bad(as.Pos(), "labelsToMap: unexpected assignment form")
+							continue
+						}
+						if !rangeVarField(fd, ix.Index, "Name") {
+							bad(as.Pos(), "labelsToMap: the map key is not <label>.Name")
+						}
+						if !rangeVarField(fd, as.Rhs[i], "Value") {
+							bad(as.Pos(), "labelsToMap stores %s, not the label's Value unchanged", exprString(as.Rhs[i]))
+						}
+					}
+					return true
+				})
+			case "extractLabelNames":
+				found["extractLabelNames"] = true
+				ast.Inspect(fd.Body, func(n ast.Node) bool {
+					as, isA := n.(*ast.AssignStmt)
+					if !isA {
+						return true
+					}
+					for i, l := range as.Lhs {
+						if _, isIx := l.(*ast.IndexExpr); !isIx || i >= len(as.Rhs) {
+							continue
+						}
+						r := ast.Unparen(as.Rhs[i])
+						if rangeVarField(fd, r, "Name") {
+							continue
+						}
+						if id, isID := r.(*ast.Ident); isID { // the global label name being copied
+							if v, isV := info.Uses[id].(*types.Var); isV {
+								if b, isB := v.Type().Underlying().(*types.Basic); isB && b.Kind() == types.String {
+									continue
+								}
+							}
+						}
+						bad(as.Pos(), "extractLabelNames stores %s, not a label name unchanged", exprString(r))
+					}
+					return true
+				})
+			}
+		}
+	}
+	for _, f := range []string{"EmitCounter", "EmitGauge", "EmitHistogram", "labelsToMap", "extractLabelNames"} {
+		if !found[f] {
+			ok = false
+			notes = append(notes, "method "+f+" of the wrapper not found")
+		}
+	}
+	return ok, notes
+}
+
+func exprString(e ast.Expr) string {
+	var sb strings.Builder
+	_ = printer.Fprint(&sb, prog.Fset, e)
+	return sb.String()
+}
+
 // ---------- rows ----------
 
 type labelOut struct {
@@ -1443,6 +1621,8 @@ func main() {
 		}
 		return fmt.Sprintf("(%s, %s)", srcload.CoqBytes(l.Name), cl)
 	}
+	identity, pathNotes := wrapperPath()
+	fmt.Fprintf(&sb, "(* the wrapper hands label names and values on unchanged (structural check of Emit*, labelsToMap, extractLabelNames) *)\nDefinition wrapper_value_path_identity : bool := %v.\n\n", identity)
 	if globalsKnown {
 		var gs []string
 		for _, g := range globals {
@@ -1491,17 +1671,18 @@ func main() {
 	}
 	ok := "(* generated by harness/cmd/gen_metrics; the obligation a code edit breaks *)\n" +
 		"From KB Require Import Base.Bytes Model.Metrics Gen.MetricsTable.\n" +
-		"Theorem table_ok : check_program metrics_globals metrics_table = true.\nProof. vm_compute. reflexivity. Qed.\n"
+		"Theorem table_ok : check_translated wrapper_value_path_identity metrics_globals metrics_table = true.\nProof. vm_compute. reflexivity. Qed.\n"
 	if err := os.WriteFile(filepath.Join(gen, "MetricsTableOk.v"), []byte(ok), 0o644); err != nil {
 		fmt.Fprintln(os.Stderr, err)
 		os.Exit(2)
 	}
 	js := map[string]interface{}{"repo": repo, "globals_known": globalsKnown, "globals": globals, "rows": rows,
-		"server_sources": serverSources, "live_rows": nLive, "dead_rows": nDead}
+		"server_sources": serverSources, "live_rows": nLive, "dead_rows": nDead,
+		"wrapper_path": map[string]interface{}{"identity": identity, "notes": pathNotes}}
 	b, _ := json.MarshalIndent(js, "", " ")
 	if err := os.WriteFile(filepath.Join(vdir, "build", "gen", "metrics_table.json"), b, 0o644); err != nil {
 		fmt.Fprintln(os.Stderr, err)
 		os.Exit(2)
 	}
-	fmt.Printf("gen_metrics: %d rows (%d live, %d in unreachable code), globals known=%v\n", len(rows), nLive, nDead, globalsKnown)
+	fmt.Printf("gen_metrics: %d rows (%d live, %d in unreachable code), globals known=%v, wrapper label path unchanged=%v %v\n", len(rows), nLive, nDead, globalsKnown, identity, pathNotes)
 }
